@@ -110,6 +110,22 @@ static void apply(op_t o, bool judge) {
   bool is_def = cur_kind == CK_DEF_ARRAY || cur_kind == CK_DEF_MAP;
   bool want = false, got = false;
   bool changes = false;
+  /* marker 9: the allocator refuses the next request; an insertion that has to grow must then be refused and change nothing */
+  bool refuse = (o.op == OP_PUSH && o.y == 9) || ((o.op == OP_MAPADD || o.op == OP_CHUNK) && o.i == 9);
+  bool must_grow = !is_def && real_size() == real_allocated();
+  if (refuse) va_schedule(VA_FAIL_ONE, va.requests, 0);
+  if (refuse && must_grow) {
+    got = o.op == OP_PUSH ? cbor_array_push(cont, pool[o.x]) : o.op == OP_MAPADD ? cbor_map_add(cont, (struct cbor_pair){.key = pool[o.x], .value = pool[o.y]})
+          : cur_kind == CK_BYTES ? cbor_bytestring_add_chunk(cont, pool[o.x]) : cbor_string_add_chunk(cont, pool[o.x]);
+    va_schedule(VA_NOFAULT, 0, 0);
+    if (!judge) return;
+    vf_cnt(K_REFUSED, 1);
+    if (got) vf_fail(NULL, "%s succeeded although the allocator refused the growth", what);
+    if (va.live != live0) vf_fail(NULL, "%s with refused growth changed the number of live blocks", what);
+    if (va_image_hash() != img) vf_fail(NULL, "%s with refused growth changed the container or its items", what);
+    compare_state(what);
+    return;
+  }
   switch (o.op) {
     case OP_PUSH:
       want = !is_def || model.n < cur_cap;
@@ -150,6 +166,7 @@ static void apply(op_t o, bool judge) {
       model.e[model.n++] = o.x;
       changes = true;
   }
+  va_schedule(VA_NOFAULT, 0, 0);
   if (!judge) return;
   if (got != want) vf_fail(o.op == OP_GET && !want ? "array-get-out-of-range" : NULL, "%s returned %s, the list model says %s", what, got ? "success" : "refusal", want ? "success" : "refusal");
   if (want) vf_cnt(K_ACCEPTED, 1); else { vf_cnt(K_REFUSED, 1); if (o.op != OP_PUSH && o.op != OP_MAPADD) vf_cnt(K_OOR, 1); }
@@ -191,6 +208,9 @@ static void bfs(int kind, unsigned cap) {
     /* alphabet of this state */
     op_t ops[512];
     unsigned nops = 0;
+    if (kind == CK_INDEF_ARRAY) ops[nops++] = (op_t){OP_PUSH, 0, 1, 9};
+    if (kind == CK_INDEF_MAP) ops[nops++] = (op_t){OP_MAPADD, 9, 1, 2};
+    if (kind == CK_BYTES || kind == CK_TEXT) ops[nops++] = (op_t){OP_CHUNK, 9, 1, 0};
     if (is_arr) {
       for (uint8_t x = 0; x < NPOOL; x++) ops[nops++] = (op_t){OP_PUSH, 0, x, 0};
       for (uint8_t i = 0; i <= s.c.n + 2; i++) {
